@@ -438,6 +438,43 @@ def check_midcall(run: lib.Run, mod) -> None:
                                                           "during": first, "afterwards": later, "fresh_source": fresh, "old_tag": old_tag})
 
 
+# ============================================================================= the policy path is a symbolic link
+
+
+def check_symlink(run: lib.Run, mod) -> None:
+    """deployments publish by retargeting a symbolic link (Kubernetes `..data`, `ln -sfn`): the source reports what the PATH names now —
+    a long-lived source must agree with a brand-new one after every retarget, and atomic_write onto the link path must be seen too"""
+    for ext in (".json", ".yaml"):
+        for mt in (False, True):
+            with tempfile.TemporaryDirectory(prefix="rbacx-verif-c16-") as d:
+                old, new = (OLD_DOC, NEW_DOC) if ext == ".json" else (OLD_YAML, NEW_YAML)
+                a, b2 = os.path.join(d, "v1" + ext), os.path.join(d, "v2" + ext)
+                for pth, text, ns in ((a, old, 1), (b2, new, 2)):
+                    with open(pth, "wb") as f:
+                        f.write(text.encode())
+                    os.utime(pth, ns=(BASE_NS + ns, BASE_NS + ns))
+                link = os.path.join(d, "current" + ext)
+                os.symlink(a, link)
+                src = mod.FilePolicySource(link, include_mtime_in_etag=mt)
+                obs = []
+                for step, target in enumerate((a, b2, a, b2)):
+                    tmp = link + ".swap"
+                    os.symlink(target, tmp)
+                    os.replace(tmp, link)
+                    fresh = mod.FilePolicySource(link, include_mtime_in_etag=mt)
+                    try:
+                        obs.append((src.etag() == fresh.etag(), src.load() == fresh.load()))
+                    except Exception as e:  # noqa: BLE001
+                        obs.append(("raised", type(e).__name__))
+                run.evaluations += 1
+                run.count("symlink-retarget")
+                run.nontrivial.add(f"symlink{ext}{mt}")
+                if any(o != (True, True) for o in obs):
+                    run.spec_failures.append({"label": f"symlink{ext}", "kind": "symlink", "ext": ext, "include_mtime": mt,
+                                              "what": "the policy path is a symbolic link that was retargeted: the long-lived source no longer reports "
+                                                      "what the path names (tag / document differ from a fresh source's)", "agree_per_step": obs})
+
+
 # ============================================================================= histories of the file source
 
 # content pool: index → text.  0/1/2 have the same size; 3 is YAML only; 4 is a YAML list (not a mapping);
@@ -705,7 +742,7 @@ def check(run: lib.Run, audit: dict) -> int:
     run.rule = ("atomic_write: a fault at every step of the traced program (raise ×3 exception kinds, also after 0/1/half/all bytes of "
                 "f.write; os._exit in a forked child and SIGKILL in a child interpreter after every prefix) × scenarios (replace/create, "
                 "json/yaml) + provoked real errors; a reader between every two steps; reader thread vs writer thread; the file replaced before/after "
-                "every file-system access of a running etag() (cold and warm cache, both tag modes). "
+                "every file-system access of a running etag() (cold and warm cache, both tag modes); the path as a retargeted symbolic link. "
                 "file source: every history over {4 writes (same-size pairs, 2 mtimes), touch, delete, etag, load} of length ≤4 (quick) / "
                 "{6 writes, 2 touches, …} ≤5 (thorough) ending in an observation × (extension, include_mtime, write mechanism) configs + "
                 "seeded random histories of length ≤30 + directed ones. non-trivial = a fault that fired / a history with a modification "
@@ -734,6 +771,7 @@ def check(run: lib.Run, audit: dict) -> int:
     check_instants(run, mod)
     check_concurrent(run, mod)
     check_midcall(run, mod)
+    check_symlink(run, mod)
     check_histories(run, mod, scale=run.boost)
     if (run.disagreements or not ok) and not run.spec_failures:
         # a proof obligation or the correspondence broke: widen the search for a failing input on the real code
@@ -743,7 +781,7 @@ def check(run: lib.Run, audit: dict) -> int:
     violations = []
     if run.spec_failures:
         # the most concrete witness first: a fault point, then a history, then the interleaving / thread observations
-        rank = {None: 0, "history": 1, "midcall": 1, "instants": 2, "concurrent": 3}
+        rank = {None: 0, "history": 1, "midcall": 1, "symlink": 1, "instants": 2, "concurrent": 3}
         c = min(run.spec_failures, key=lambda x: rank.get(x.get("kind"), 4))
         if c.get("kind") == "history":
             c = shrink_history(mod, c)
@@ -793,6 +831,11 @@ def replay(run: lib.Run, audit: dict, path: str) -> int:
     if c.get("kind") == "concurrent":
         r2 = lib.Run(run.prop, run.tier, run.seed)
         check_concurrent(r2, mod)
+        print("spec failures:", r2.spec_failures[:1])
+        return 1 if r2.spec_failures else 0
+    if c.get("kind") == "symlink":
+        r2 = lib.Run(run.prop, run.tier, run.seed)
+        check_symlink(r2, mod)
         print("spec failures:", r2.spec_failures[:1])
         return 1 if r2.spec_failures else 0
     if c.get("kind") == "midcall":
